@@ -2,6 +2,7 @@
 
 #![allow(dead_code)]
 mod alloc;
+mod c06;
 mod c13;
 mod c14;
 mod c19;
@@ -23,11 +24,12 @@ use engine::{Engine, Tier};
 static GLOBAL: alloc::Counting = alloc::Counting;
 
 static C19: c19::C19 = c19::C19;
+static C06: c06::C06 = c06::C06;
 static C13: c13::C13 = c13::C13;
 static C14: c14::C14 = c14::C14;
 
 fn engines() -> Vec<&'static dyn Engine> {
-    vec![&C13, &C14, &C19]
+    vec![&C06, &C13, &C14, &C19]
 }
 
 fn find(id: &str) -> Option<&'static dyn Engine> {
